@@ -34,6 +34,9 @@ def main():
         shutil.copy(os.path.join(src, f), os.path.join(dst, f))
     json.dump(meta, open(os.path.join(dst, 'meta.json'), 'w'), indent=1)
     print(name, 'confirmed;', {c: v['caught'] for c, v in meta['checks'].items()})
+    for c, v in out['checks'].items():
+        if v['rc'] not in (0, 1):
+            print('  !! check %s ended with rc=%s (harness error / timeout, not a verdict): %s' % (c, v['rc'], v['lines'][-2:]))
 
 
 if __name__ == '__main__':
